@@ -84,6 +84,52 @@ def gen_regex(rng, depth=3, allow_bad=False, big=True):
     return r
 
 
+def seq_of(items):
+    s = ('S1', items[-1])
+    for it in reversed(items[:-1]):
+        s = ('S2', it, s)
+    return ('A1', s)
+
+
+def gen_delimited(rng):
+    """a bounded repetition {n,m} with 1 <= n < m between two literals: a surplus or a missing copy cannot hide"""
+    n = rng.choice([1, 1, 2])
+    m = n + rng.choice([1, 1, 2])
+    k = rng.random()
+    if k < 0.4:
+        mid = ('C', gen_char(rng), ('b', n, m))
+    elif k < 0.7:
+        mid = ('K', [gen_citem(rng) for _ in range(rng.choice([1, 2]))], ('b', n, m))
+    else:
+        mid = ('G', rng.random() < 0.4, seq_of([('C', gen_char(rng), None) for _ in range(rng.choice([1, 2]))]), ('b', n, m))
+    return seq_of([('C', rng.choice("xyz<"), None), mid, ('C', rng.choice("uvw>"), None)])
+
+
+def gen_flat(rng):
+    """a plain sequence of literals and classes without quantifiers, with the same class text at several places:
+    position i of every generated string belongs to item i, so coverage can be judged per occurrence"""
+    cls = [gen_citem(rng) for _ in range(rng.choice([2, 2, 3]))]
+    items = []
+    for _ in range(rng.choice([2, 3, 4])):
+        items.append(('K', list(cls), None) if rng.random() < 0.65 else ('C', gen_char(rng), None))
+    return seq_of(items)
+
+
+def flat_items(r):
+    """the items of a plain sequence (no alternation, no group, no quantifier), else None"""
+    if r[0] != 'A1':
+        return None
+    out, s = [], r[1]
+    while True:
+        it = s[1]
+        if it[0] not in ('C', 'K') or it[-1] is not None:
+            return None
+        out.append(it)
+        if s[0] == 'S1':
+            return out
+        s = s[2]
+
+
 def pr_q(q):
     if q is None:
         return ""
